@@ -202,9 +202,14 @@ where
         }
 
         trace!("checkout interested in pooled connections");
-        inner.waiting.entry(token).or_default().push_back(tx);
+        let waits_for_attempt = inner.connecting.contains(&token);
+        inner
+            .waiting
+            .entry(token)
+            .or_default()
+            .push_back((tx, waits_for_attempt));
 
-        if inner.connecting.contains(&token) {
+        if waits_for_attempt {
             trace!("connection in progress elsewhere, will wait");
             connector = None;
             Checkout::new(
@@ -331,7 +336,9 @@ where
     config: Config,
 
     connecting: HashSet<Token>,
-    waiting: HashMap<Token, VecDeque<Sender<Pooled<C, B>>>>,
+    /// Waiters for a connection, flagged `true` when the checkout makes no
+    /// attempt of its own and relies on the one marked in `connecting`.
+    waiting: HashMap<Token, VecDeque<(Sender<Pooled<C, B>>, bool)>>,
 
     idle: HashMap<Token, IdleConnections<C, B>>,
 }
@@ -354,6 +361,11 @@ where
         let existed = self.connecting.remove(&token);
         if existed {
             trace!("pending connection cancelled");
+            // Checkouts which rely on the cancelled attempt would otherwise
+            // wait forever: dropping their sender resolves them with an error.
+            if let Some(waiters) = self.waiting.get_mut(&token) {
+                waiters.retain(|(_, waits_for_attempt)| !waits_for_attempt);
+            }
         }
     }
 }
@@ -386,7 +398,7 @@ where
         if let Some(waiters) = self.waiting.get_mut(&token) {
             trace!(waiters=%waiters.len(), ?token, "walking waiters");
 
-            while let Some(waiter) = waiters.pop_front() {
+            while let Some((waiter, _)) = waiters.pop_front() {
                 if waiter.is_closed() {
                     trace!("skipping closed waiter");
                     continue;
@@ -755,7 +767,7 @@ where
                 waiters_closed: inner
                     .waiting
                     .get(&token)
-                    .map(|w| w.iter().map(|tx| tx.is_closed()).collect())
+                    .map(|w| w.iter().map(|(tx, _)| tx.is_closed()).collect())
                     .unwrap_or_default(),
                 idle: inner
                     .idle
